@@ -37,6 +37,7 @@ import (
 	"strconv"
 	"strings"
 	"syscall"
+	"time"
 
 	"github.com/opencontainers/go-digest"
 	ocispec "github.com/opencontainers/image-spec/specs-go/v1"
@@ -54,7 +55,7 @@ const (
 )
 
 type Prep struct {
-	Kind   string `json:"kind"` // d | f | l
+	Kind   string `json:"kind"` // d | f | l | h (h: hard link to the earlier file Target)
 	Path   string `json:"path"`
 	Tag    int    `json:"tag,omitempty"`
 	Target string `json:"target,omitempty"` // l: link text (a link made by the user, any target)
@@ -66,6 +67,27 @@ type Entry struct {
 	Target string `json:"target,omitempty"`
 	Tag    int    `json:"tag,omitempty"`
 	Mode   int    `json:"mode,omitempty"` // permission bits of r/d entries (0 = default 0644/0755)
+	Time   int    `json:"time,omitempty"` // header ModTime = 2001-01-01 + Time hours (0 = none given: the harness uses 999)
+}
+
+// hdrTime is the header time number of an entry; entries without one get 999 (a zero
+// tar time would be restored as the Unix epoch, which is an utimes call all the same)
+func (e Entry) hdrTime() int {
+	if e.Time > 0 {
+		return e.Time
+	}
+	return 999
+}
+
+func stampTime(k int) time.Time { return time.Date(2001, 1, 1, k, 0, 0, 0, time.UTC) }
+
+// stampOf returns k when t is the header time number k, else 0
+func stampOf(t time.Time) int {
+	d := t.Sub(stampTime(0))
+	if d > 0 && d%time.Hour == 0 && d/time.Hour < 1000 {
+		return int(d / time.Hour)
+	}
+	return 0
 }
 
 func (e Entry) mode() int {
@@ -78,8 +100,16 @@ func (e Entry) mode() int {
 	return 0o644
 }
 
+// Layer is a successor of a pushed manifest: a named blob whose content (tag) the store may
+// already hold; Store.Push restores it under its title (restoreDuplicates)
+type Layer struct {
+	Title string `json:"title"`
+	Tag   int    `json:"tag"`
+}
+
 type Push struct {
-	Kind    string  `json:"kind"` // B | U
+	Layers  []Layer `json:"layers,omitempty"` // kind M
+	Kind    string  `json:"kind"` // B | U | M (image manifest with named layers; judged by the oracle only)
 	Title   string  `json:"title"`
 	Tag     int     `json:"tag,omitempty"`
 	Entries []Entry `json:"entries,omitempty"`
@@ -89,6 +119,12 @@ type Case struct {
 	Prep     []Prep `json:"prep"`
 	Pushes   []Push `json:"pushes"`
 	Preserve bool   `json:"preserve"`
+	// Wd: how the working directory exists when the store is opened (audit F2):
+	//  ""        a real directory reached through real directories (the theorem's Inv)
+	//  "missing" it does not exist yet (the first push creates it); modelled
+	//  "link"    <s3>/wd is a symbolic link to the directory <s3>/wdreal; oracle only
+	//  "via"     the store is opened as <s2>/via/wd where via -> s3; oracle only
+	Wd string `json:"wd,omitempty"`
 	Origin   string `json:"origin,omitempty"`
 }
 
@@ -152,12 +188,18 @@ type objInfo struct {
 	Content string
 	Target  string
 	Ino     uint64
+	Mtime   int64
 }
 
 var harnessFiles = map[string]bool{"/cases.txt": true, "/impl.txt": true, "/oracle.txt": true, "/stats.json": true, "/tmp": true}
 
 // snapshot of everything that is not below the working directory (of the working
 // directory itself: existence, type and identity, not its mode)
+// physWd is the physical location of the working directory of the running case, wdGone: it did
+// not exist when the store was opened (its creation is the store's own business)
+var physWd = wdDir
+var wdGone = false
+
 func snapshotOutside() map[string]objInfo {
 	out := map[string]objInfo{}
 	var rec func(p string)
@@ -185,15 +227,23 @@ func snapshotOutside() map[string]objInfo {
 		default:
 			o.Type = "o"
 		}
-		if p == wdDir {
+		o.Mtime = fi.ModTime().UnixNano()
+		if p == physWd && wdGone {
+			return
+		}
+		if wdGone && p == path.Dir(physWd) {
+			o.Mtime = 0 // the store creates its working directory: a new entry in the parent
+		}
+		if p == physWd {
 			// the working directory's own attributes are the store's; its entry in the
 			// parent directory (existence, type, identity) is not
 			o.Mode = 0
+			o.Mtime = 0
 		}
 		if p != "/" {
 			out[p] = o
 		}
-		if o.Type == "d" && p != wdDir {
+		if o.Type == "d" && p != physWd {
 			des, _ := os.ReadDir(p)
 			for _, de := range des {
 				c := path.Join(p, de.Name())
@@ -206,6 +256,37 @@ func snapshotOutside() map[string]objInfo {
 	}
 	rec("/")
 	return out
+}
+
+// sharedInodeOnly returns the outside peer when every difference between the snapshots is at
+// outside files that a pre-populated hard link inside the working directory shares (same inode
+// before and after), else "".
+func sharedInodeOnly(c Case, a, b map[string]objInfo) string {
+	peers := map[string]bool{}
+	for _, p := range c.Prep {
+		if p.Kind == "h" {
+			peers[p.Target] = true
+		}
+	}
+	if len(peers) == 0 {
+		return ""
+	}
+	found := ""
+	for k, x := range a {
+		y, ok := b[k]
+		if !ok || x != y {
+			if !ok || !peers[k] || x.Ino != y.Ino || x.Type != y.Type {
+				return ""
+			}
+			found = k
+		}
+	}
+	for k := range b {
+		if _, ok := a[k]; !ok {
+			return ""
+		}
+	}
+	return found
 }
 
 func diffSnap(a, b map[string]objInfo) (string, string) {
@@ -237,6 +318,9 @@ func diffSnap(a, b map[string]objInfo) (string, string) {
 			return "remoded", fmt.Sprintf("%s mode changed %o -> %o", k, x.Mode, y.Mode)
 		case x.Ino != y.Ino:
 			return "replaced", fmt.Sprintf("%s replaced (inode changed)", k)
+		case x.Mtime != y.Mtime:
+			return "touched", fmt.Sprintf("%s modification time changed %s -> %s", k,
+				time.Unix(0, x.Mtime).UTC().Format(time.RFC3339), time.Unix(0, y.Mtime).UTC().Format(time.RFC3339))
 		}
 	}
 	return "", ""
@@ -251,13 +335,20 @@ func listing() string {
 			return
 		}
 		hp := hex.EncodeToString([]byte(p))
+		// outside the working directory: which header time (if any) the object carries
+		st := ""
+		if !(p == wdDir || strings.HasPrefix(p, wdDir+"/")) {
+			if k := stampOf(fi.ModTime()); k > 0 {
+				st = "@" + strconv.Itoa(k)
+			}
+		}
 		switch {
 		case fi.Mode()&os.ModeSymlink != 0:
 			t, _ := os.Readlink(p)
 			items = append(items, hp+":l"+common.Hex(t))
 		case fi.IsDir():
 			if p != "/" {
-				items = append(items, fmt.Sprintf("%s:d%d", hp, fi.Mode().Perm()))
+				items = append(items, fmt.Sprintf("%s:d%d%s", hp, fi.Mode().Perm(), st))
 			}
 			des, _ := os.ReadDir(p)
 			for _, de := range des {
@@ -270,7 +361,7 @@ func listing() string {
 		case fi.Mode().IsRegular():
 			b, _ := os.ReadFile(p)
 			if _, err := strconv.Atoi(string(b)); err == nil {
-				items = append(items, fmt.Sprintf("%s:f%sm%d", hp, string(b), fi.Mode().Perm()))
+				items = append(items, fmt.Sprintf("%s:f%sm%d%s", hp, string(b), fi.Mode().Perm(), st))
 			} else {
 				items = append(items, hp+":f?"+hex.EncodeToString(b))
 			}
@@ -290,6 +381,8 @@ func buildTarGz(es []Entry) []byte {
 	tw := tar.NewWriter(gz)
 	for _, e := range es {
 		h := &tar.Header{Name: e.Name, Format: tar.FormatPAX}
+		h.ModTime = stampTime(e.hdrTime())
+		h.AccessTime = stampTime(e.hdrTime())
 		var body []byte
 		switch e.Kind {
 		case "r":
@@ -321,9 +414,17 @@ func buildTarGz(es []Entry) []byte {
 // independent lexical judgement: does the name, taken relative to the working
 // directory when it is not absolute, denote a location outside the working directory?
 func lexOutside(name string) bool {
+	c := lexClean(name, wdDir)
+	return !(c == wdDir || strings.HasPrefix(c, wdDir+"/"))
+}
+
+func lexUnder(p, dir string) bool { return p == dir || strings.HasPrefix(p, strings.TrimSuffix(dir, "/")+"/") }
+
+// lexClean is the lexical location of name, taken relative to base when it is not absolute
+func lexClean(name, base string) string {
 	p := name
 	if !strings.HasPrefix(name, "/") {
-		p = wdDir + "/" + name
+		p = base + "/" + name
 	}
 	segs := []string{}
 	for _, s := range strings.Split(p, "/") {
@@ -337,22 +438,49 @@ func lexOutside(name string) bool {
 			segs = append(segs, s)
 		}
 	}
-	c := "/" + strings.Join(segs, "/")
-	return !(c == wdDir || strings.HasPrefix(c, wdDir+"/"))
+	return "/" + strings.Join(segs, "/")
+}
+
+// fallbackHas: an earlier unnamed blob with this content tag was pushed (so a manifest layer with
+// that content can be restored)
+func fallbackHas(ps []Push, tag int) bool {
+	for _, p := range ps {
+		if p.Kind == "B" && p.Title == "" && p.Tag == tag && tag != 0 {
+			return true
+		}
+	}
+	return false
 }
 
 func modelLine(c Case, cfg string) string {
+	if c.Wd == "link" || c.Wd == "via" {
+		return "X" // working directory behind / being a symbolic link: judged by the oracle only
+	}
+	for _, p := range c.Pushes {
+		if p.Kind == "M" {
+			return "X" // manifests (restoreDuplicates) are not modelled: judged by the oracle only
+		}
+	}
 	var sb strings.Builder
 	pres := 0
 	if c.Preserve {
 		pres = 1
 	}
-	fmt.Fprintf(&sb, "%s %d %s %s %d", cfg, pres, common.Hex(wdDir), common.Hex(cwdDir), len(c.Prep))
-	for _, p := range c.Prep {
+	prep := c.Prep
+	if c.Wd == "missing" {
+		prep = nil
+		for _, p := range c.Prep {
+			if !(p.Path == wdDir || strings.HasPrefix(p.Path, wdDir+"/")) {
+				prep = append(prep, p)
+			}
+		}
+	}
+	fmt.Fprintf(&sb, "%s %d %s %s %d", cfg, pres, common.Hex(wdDir), common.Hex(cwdDir), len(prep))
+	for _, p := range prep {
 		if p.Kind == "d" {
 			fmt.Fprintf(&sb, " d %s", common.Hex(p.Path))
-		} else if p.Kind == "l" {
-			fmt.Fprintf(&sb, " l %s %s", common.Hex(p.Path), common.Hex(p.Target))
+		} else if p.Kind == "l" || p.Kind == "h" {
+			fmt.Fprintf(&sb, " %s %s %s", p.Kind, common.Hex(p.Path), common.Hex(p.Target))
 		} else {
 			fmt.Fprintf(&sb, " f %s %d", common.Hex(p.Path), p.Tag)
 		}
@@ -375,14 +503,27 @@ func modelLine(c Case, cfg string) string {
 			default:
 				fmt.Fprintf(&sb, " o %s", common.Hex(e.Name))
 			}
+			fmt.Fprintf(&sb, " %d", e.hdrTime())
 		}
 	}
 	return sb.String()
 }
 
-var modelCfg = "11111"
+var modelCfg = "111111"
 
 func runCase(c Case) {
+	// archive/tar cannot encode a regular entry whose name ends in a slash (replay files may ask for it)
+	for i := range c.Pushes {
+		for j, e := range c.Pushes[i].Entries {
+			if e.Kind == "r" && strings.HasSuffix(e.Name, "/") {
+				n := strings.TrimRight(e.Name, "/")
+				if n == "" {
+					n = "."
+				}
+				c.Pushes[i].Entries[j].Name = n
+			}
+		}
+	}
 	id := run.NewID()
 	// fresh tree
 	os.Chdir("/")
@@ -401,16 +542,42 @@ func runCase(c Case) {
 			if err := os.Symlink(p.Target, p.Path); err != nil {
 				panic(err)
 			}
+		} else if p.Kind == "h" {
+			if err := os.Link(p.Target, p.Path); err != nil {
+				panic(err)
+			}
 		} else {
 			if err := os.WriteFile(p.Path, []byte(strconv.Itoa(p.Tag)), 0o644); err != nil {
 				panic(err)
 			}
 		}
 	}
+	physWd, wdGone = wdDir, false
+	openAs := wdDir
+	switch c.Wd {
+	case "missing":
+		if err := os.RemoveAll(wdDir); err != nil {
+			panic(err)
+		}
+		wdGone = true
+	case "link":
+		physWd = s3Dir + "/wdreal"
+		if err := os.Rename(wdDir, physWd); err != nil {
+			panic(err)
+		}
+		if err := os.Symlink("wdreal", wdDir); err != nil {
+			panic(err)
+		}
+	case "via":
+		if err := os.Symlink("s3", "/sb/s0/s1/s2/via"); err != nil {
+			panic(err)
+		}
+		openAs = "/sb/s0/s1/s2/via/wd"
+	}
 	if err := os.Chdir(cwdDir); err != nil {
 		panic(err)
 	}
-	store, err := file.New(wdDir)
+	store, err := file.New(openAs)
 	if err != nil {
 		panic(err)
 	}
@@ -419,17 +586,40 @@ func runCase(c Case) {
 	verdicts := ""
 	nontrivial := false
 	var before map[string]objInfo
+	hasManifest := false
 	for i, p := range c.Pushes {
 		var blob []byte
 		ann := map[string]string{ocispec.AnnotationTitle: p.Title}
-		if p.Kind == "B" {
+		mediaType := "application/vnd.verif.blob"
+		dgst := digest.Digest("")
+		switch p.Kind {
+		case "B":
 			blob = []byte(strconv.Itoa(p.Tag))
-		} else {
+			if p.Tag == 0 {
+				// content that fails verification (same size, other digest): written, then removed
+				dgst = digest.FromBytes([]byte("1"))
+			}
+		case "M":
+			m := ocispec.Manifest{MediaType: ocispec.MediaTypeImageManifest,
+				Config: ocispec.Descriptor{MediaType: "application/vnd.verif.config", Digest: digest.FromBytes([]byte("{}")), Size: 2}}
+			m.SchemaVersion = 2
+			for _, l := range p.Layers {
+				lb := []byte(strconv.Itoa(l.Tag))
+				m.Layers = append(m.Layers, ocispec.Descriptor{MediaType: "application/vnd.verif.blob", Digest: digest.FromBytes(lb),
+					Size: int64(len(lb)), Annotations: map[string]string{ocispec.AnnotationTitle: l.Title}})
+			}
+			blob, _ = json.Marshal(m)
+			mediaType = ocispec.MediaTypeImageManifest
+			ann = nil
+			hasManifest = true
+		default:
 			blob = buildTarGz(p.Entries)
 			ann[file.AnnotationUnpack] = "true"
 		}
-		desc := ocispec.Descriptor{MediaType: "application/vnd.verif.blob", Digest: digest.FromBytes(blob),
-			Size: int64(len(blob)), Annotations: ann}
+		if dgst == "" {
+			dgst = digest.FromBytes(blob)
+		}
+		desc := ocispec.Descriptor{MediaType: mediaType, Digest: dgst, Size: int64(len(blob)), Annotations: ann}
 		if before == nil {
 			before = snapshotOutside()
 		}
@@ -447,17 +637,41 @@ func runCase(c Case) {
 			if p.Kind == "U" {
 				what = "unpack"
 			}
+			// the one mechanism recorded as a known finding: the changed outside object is a file
+			// that was hard-linked into the working directory before the store was opened, it is
+			// still the same inode, and nothing else outside changed
+			if peer := sharedInodeOnly(c, before, after); peer != "" && (kind == "overwritten" || kind == "remoded" || kind == "touched") {
+				run.OracleFail(id, "shared-inode-"+kind, fmt.Sprintf("push #%d title %q: %s (pre-existing hard link %s)", i, p.Title, msg, peer), c)
+				before = after
+				continue
+			}
 			run.OracleFail(id, "escape-"+kind+"-"+what, fmt.Sprintf("push #%d title %q: %s", i, p.Title, msg), c)
 		}
 		before = after
 		// oracle 2: a name that lexically resolves outside must be rejected
+		if err == nil {
+			for _, l := range p.Layers {
+				if lexOutside(l.Title) && fallbackHas(c.Pushes[:i], l.Tag) {
+					run.OracleFail(id, "outside-layer-title-accepted", fmt.Sprintf("push #%d manifest layer title %q resolves outside the working directory but the push succeeded", i, l.Title), c)
+				}
+			}
+		}
 		if p.Title != "" && err == nil {
 			if lexOutside(p.Title) {
 				run.OracleFail(id, "outside-title-accepted", fmt.Sprintf("push #%d title %q resolves outside the working directory but was accepted", i, p.Title), c)
 			}
+			dpLex := lexClean(p.Title, wdDir)
 			for _, e := range p.Entries {
+				nameLex := lexClean(e.Name, wdDir)
 				if lexOutside(e.Name) {
 					run.OracleFail(id, "outside-entry-accepted", fmt.Sprintf("push #%d entry %q resolves outside the working directory but the push succeeded", i, e.Name), c)
+				} else if !lexUnder(nameLex, dpLex) {
+					run.OracleFail(id, "entry-outside-unpack-dir-accepted", fmt.Sprintf("push #%d entry %q is not below the unpack directory %q but the push succeeded", i, e.Name, p.Title), c)
+				}
+				if e.Kind == "h" || e.Kind == "s" {
+					if tl := lexClean(e.Target, path.Dir(nameLex)); !lexUnder(tl, dpLex) {
+						run.OracleFail(id, "outside-link-target-accepted", fmt.Sprintf("push #%d link %q -> %q: the target resolves (lexically) outside the unpack directory but the push succeeded", i, e.Name, e.Target), c)
+					}
 				}
 			}
 		}
@@ -471,6 +685,12 @@ func runCase(c Case) {
 	run.Count("verdicts=" + verdicts)
 	if c.Origin != "" {
 		run.Count("origin=" + c.Origin)
+	}
+	if hasManifest {
+		run.Count("unjudged-by-model(manifest)")
+	}
+	if c.Wd != "" {
+		run.Count("wd=" + c.Wd)
 	}
 	for _, p := range c.Pushes {
 		run.Count("push." + p.Kind)
@@ -552,6 +772,8 @@ func genTitle(r *common.Rand, earlier []string) string {
 		}
 	case 6:
 		return wdDir
+	case 11:
+		return "" // no name: fallback storage
 	case 10:
 		return siblingTitle(r)
 	case 7, 8, 9:
@@ -741,6 +963,11 @@ func genRandom(r *common.Rand) Case {
 	np := 1 + r.Intn(3)
 	for i := 0; i < np; i++ {
 		title := genTitle(r, earlier)
+		if title == "" {
+			// unnamed blobs go to the fallback storage; the same content twice is refused
+			c.Pushes = append(c.Pushes, Push{Kind: "B", Title: "", Tag: 40 + r.Intn(2)})
+			continue
+		}
 		if r.Chance(2, 3) {
 			c.Pushes = append(c.Pushes, genUnpack(r, title, &earlier, &tag))
 		} else {
@@ -779,7 +1006,7 @@ func genTemplate(r *common.Rand) Case {
 	c := Case{Prep: basePrep(), Preserve: r.Chance(1, 4)}
 	t := common.Pick(r, []string{"t", "a", "k", "t/b"})
 	fin := common.Pick(r, []string{"victim", "a", "x/victim", "k"})
-	switch k := r.Intn(17); k {
+	switch k := r.Intn(20); k {
 	case 0: // raw link target goes through an earlier link and climbs
 		c.Origin = "tpl-raw-target"
 		d := 1 + r.Intn(3)
@@ -855,6 +1082,37 @@ func genTemplate(r *common.Rand) Case {
 		default:
 			c.Pushes = []Push{{Kind: "U", Title: "u", Entries: []Entry{{Kind: "r", Name: "u/" + fin, Tag: 6}}},
 				{Kind: "U", Title: "v", Entries: []Entry{{Kind: "h", Name: "v/h", Target: "../u/victim"}, {Kind: "r", Name: "v/h", Tag: 7}}}}
+		}
+	case 17: // manifest whose named layers are restored from content the store already holds
+		c.Origin = "tpl-manifest-layers"
+		titles := []string{pickSeg(r), "m/" + pickSeg(r), "../victim", "../wd-old/victim.txt", s3Dir + "/victim", "a/../../x/victim", wdDir + "/ok"}
+		common.Shuffle(r, titles)
+		c.Pushes = []Push{{Kind: "B", Title: "", Tag: 41}, {Kind: "B", Title: "", Tag: 42},
+			{Kind: "M", Layers: []Layer{{Title: titles[0], Tag: 41}, {Title: titles[1], Tag: 42}, {Title: titles[2], Tag: 43}}}}
+		if r.Bool() {
+			// through a link planted earlier
+			c.Pushes = append([]Push{{Kind: "U", Title: "t", Entries: []Entry{{Kind: "d", Name: "t/b/b/b"},
+				{Kind: "s", Name: "t/b/b/b/s", Target: "../../.."}, {Kind: "s", Name: "t/l", Target: "b/b/b/s/../.."}}}}, c.Pushes...)
+			c.Pushes[3].Layers[0].Title = common.Pick(r, []string{"t/l/victim", "t/l/x/victim", "t/l"})
+		}
+	case 18: // a named blob whose content fails verification: written, then removed again
+		c.Origin = "tpl-bad-content"
+		nm := common.Pick(r, []string{"f", "d/f", "t/l", "old", "a", "victim"})
+		c.Pushes = []Push{{Kind: "U", Title: "t", Entries: []Entry{{Kind: "d", Name: "t/a/b"}, {Kind: "s", Name: "t/a/b/s", Target: "../.."},
+			{Kind: "s", Name: "t/l", Target: "a/b/s/../../../victim"}}},
+			{Kind: "B", Title: nm, Tag: 19}, {Kind: "B", Title: nm + "x", Tag: 0}, {Kind: "B", Title: common.Pick(r, []string{nm, "t/l", "../victim"}), Tag: 0}}
+	case 16: // pre-populated hard link to a file outside (cp -al / ostree style checkout)
+		c.Origin = "tpl-prepop-hardlink"
+		peer := common.Pick(r, []string{s3Dir + "/victim", cwdDir + "/secret.txt", "/sb/s0/s1/victim"})
+		c.Prep = append(c.Prep, Prep{Kind: "h", Path: wdDir + "/old", Target: peer})
+		switch r.Intn(3) {
+		case 0:
+			c.Pushes = []Push{{Kind: "B", Title: "old", Tag: 16}}
+		case 1:
+			c.Pushes = []Push{{Kind: "U", Title: ".", Entries: []Entry{{Kind: "r", Name: "./old", Tag: 17, Mode: 0o600}}}}
+			c.Preserve = r.Bool()
+		default: // not written: nothing may change
+			c.Pushes = []Push{{Kind: "U", Title: "t", Entries: []Entry{{Kind: "h", Name: "t/h", Target: "../old"}, {Kind: "s", Name: "t/l", Target: "../old"}}}}
 		}
 	case 12, 13: // titles that denote a sibling whose name starts with the working directory's name
 		c.Origin = "tpl-prefix-sibling"
@@ -941,6 +1199,31 @@ func genTemplate(r *common.Rand) Case {
 	return c
 }
 
+// stamped gives most archive entries a header time (distinct per entry of the case)
+func stamped(r *common.Rand, c Case) Case {
+	if r.Chance(1, 8) {
+		hasHard := false
+		for _, p := range c.Prep {
+			if p.Kind == "h" {
+				hasHard = true
+			}
+		}
+		if !hasHard {
+			c.Wd = common.Pick(r, []string{"missing", "missing", "link", "via"})
+		}
+	}
+	k := 0
+	for i := range c.Pushes {
+		for j := range c.Pushes[i].Entries {
+			k++
+			if r.Chance(3, 4) {
+				c.Pushes[i].Entries[j].Time = k
+			}
+		}
+	}
+	return c
+}
+
 func entryAlphabet(names, targets []string) []Entry {
 	var a []Entry
 	for _, n := range names {
@@ -961,6 +1244,7 @@ func enumerate(alpha []Entry, k int, tail []Push) {
 			if es[i].Kind == "r" {
 				es[i].Tag = i + 1
 			}
+			es[i].Time = i + 1
 		}
 		c := Case{Prep: basePrep(), Origin: fmt.Sprintf("exhaustive-%d", k)}
 		c.Pushes = append([]Push{{Kind: "U", Title: "t", Entries: es}}, tail...)
@@ -1015,7 +1299,7 @@ func main() {
 	run = common.Start("C11")
 	defer run.Finish()
 	run.Rule = "exhaustive: every 2-entry archive over 3 names x {reg,dir,symlink,hardlink} x 6 targets (thorough: + follow-up blobs, + all 3-entry archives over a sub-alphabet); random: cases = pre-populated tree + 1..3 pushes (named blob or tar+gzip to unpack, 1..6 entries over reg/dir/symlink/hardlink/other); names, titles and link targets from a grammar of segments, '..', '.', empty segments, absolute forms, earlier entry names and cwd decoys, plus perturbed attack templates; distinct = distinct case line; non-trivial = at least one push accepted"
-	if v := os.Getenv("C11_CFG"); len(v) == 5 {
+	if v := os.Getenv("C11_CFG"); len(v) == 6 {
 		modelCfg = v
 	}
 	var replayData []byte
@@ -1065,11 +1349,32 @@ func main() {
 	r := run.Rand
 	n := run.Scale(800, 12000)
 	for i := 0; i < n; i++ {
-		if i%5 == 0 {
-			runCase(genTemplate(r))
+		if i%4 == 0 {
+			runCase(stamped(r, genTemplate(r)))
 		} else {
-			runCase(genRandom(r))
+			runCase(stamped(r, genRandom(r)))
 		}
 	}
 	os.RemoveAll(sbRoot)
+	// coverage floors: a run in which a stream produced nothing must not pass silently
+	for _, k := range []string{"origin=exhaustive-2", "origin=random", "origin=tpl-deep-below-link", "origin=tpl-raw-target",
+		"origin=tpl-prefix-sibling", "origin=tpl-hardlink-nested-dotdot", "origin=tpl-manifest-layers", "origin=tpl-bad-content",
+		"origin=tpl-prepop-hardlink", "wd=missing", "wd=link", "wd=via", "push.B", "push.U", "push.M", "entry.r", "entry.d", "entry.h", "entry.s"} {
+		if run.Dist[k] == 0 {
+			fmt.Fprintln(os.Stderr, "C11 harness: coverage floor not met:", k, "= 0")
+			run.Finish()
+			os.Exit(4)
+		}
+	}
+	accepted := 0
+	for k, v := range run.Dist {
+		if strings.HasPrefix(k, "verdicts=") && strings.Contains(k, "O") {
+			accepted += v
+		}
+	}
+	if accepted < run.Evaluations/10 {
+		fmt.Fprintln(os.Stderr, "C11 harness: coverage floor not met: fewer than 10% of the cases have an accepted push")
+		run.Finish()
+		os.Exit(4)
+	}
 }
